@@ -18,7 +18,7 @@ HARNESSES = [
     stubs=['std::ifstream: vstd in-memory stream', 'ErrorDescriptor: severity-only stub (harness/common/errordesc_stub.cc)'],
     out_of_claim='the text GetLiteralStr returns beyond its emptiness (the scanner call sites discard it; the eager reader\'s use is checked under C09)', **COMMON),
   H('instance_number', 'irc', 'harness/C10/h_instno.c', repo_srcs=SRCS,
-    defs={'VSTR_CAP': 6, 'VSTREAM_CAP': 10, 'VOSTREAM_CAP': 8, 'VCONT_CAP': 4}, unwind=24, timeout={'quick': 600, 'thorough': 1800},
+    defs={'VSTR_CAP': 6, 'VSTREAM_CAP': 10, 'VOSTREAM_CAP': 8, 'VCONT_CAP': 4}, unwind=24, timeout={'quick': 900, 'thorough': 2700},
     bounds='record start # d1 [d2 [d3]] [blank] = [blank] X with symbolic decimal digits (leading zeros included)',
     samples=[{'d1': 1, 'd2': 2, 'd3': 10, 'sp': 0}, {'d1': 0, 'd2': 1, 'd3': 0, 'sp': 3}, {'d1': 10, 'd2': 10, 'd3': 10, 'sp': 1}, {'d1': 0, 'd2': 8, 'd3': 10, 'sp': 0}],
     stubs=['lazyFileReader / lazyInstMgr: zeroed typed storage', 'std::ifstream: vstd in-memory stream', 'strtoull: libc model (bases 0/8/10/16, diffed against glibc)'],
